@@ -513,8 +513,16 @@ func (set *Set) Exist(addr string) bool {
 func (set *Set) ReplaceAll(hosts []*Host) {
 	set.Lock()
 	defer set.Unlock()
+	// NOTE: Healthy() reads the cache without the lock, so the cache must not
+	// be rebuilt until all the new hosts are in place, otherwise a reader could
+	// observe the set with some (or all) of the hosts missing, e.g. fall back
+	// to the backup hosts although a healthy main host is kept.
 	for _, host := range set.all {
-		set.remove(host)
+		delete(set.all, host.Addr)
+		delete(set.healthyMain, host.Addr)
+		delete(set.healthyBackup, host.Addr)
+		host.markRemoved()
 	}
 	set.add(hosts...)
+	set.buildHealthyCache()
 }
